@@ -13,6 +13,15 @@ func checks() []check {
 			{Name: "vethname", Pkg: "pkg/link", Run: "^TestVerifC14VethName$"},
 			{Name: "ipvlan-dst-rule", Pkg: "plugin/datapath", Run: "^TestVerifC14DstRule$"},
 		}, Assume: []string{"u32 semantics: a key matches iff ((be32(pkt[off:off+4]) ^ val) & mask) == 0 (net/sched/cls_u32.c); netip.Prefix.Contains is the reference for CIDR membership"}},
+		{ID: "C16", Level: "model_checking", Parts: []part{
+			{Name: "histories", Pkg: "pkg/aliyun/client", Run: "^TestVerifC16Histories$", Sets: []string{"weave"}, Weave: []string{"pkg/aliyun/client"}},
+			{Name: "concurrent", Pkg: "pkg/aliyun/client", Run: "^TestVerifC16Concurrent$", Sets: []string{"weave"}, Weave: []string{"pkg/aliyun/client"}},
+		}},
+		{ID: "C17", Level: "model_checking", Parts: []part{
+			{Name: "select", Pkg: "pkg/vswitch", Run: "^TestVerifC17Select$", Sets: []string{"weave"}, Weave: []string{"pkg/vswitch"}},
+			{Name: "block-history", Pkg: "pkg/vswitch", Run: "^TestVerifC17Block$", Sets: []string{"weave"}, Weave: []string{"pkg/vswitch"}},
+			{Name: "concurrent", Pkg: "pkg/vswitch", Run: "^TestVerifC17Concurrent$", Sets: []string{"weave"}, Weave: []string{"pkg/vswitch"}},
+		}},
 		{ID: "C15", Level: "model_checking", Parts: []part{
 			{Name: "bandwidth", Pkg: "pkg/k8s", Run: "^TestVerifC15Bandwidth$"},
 		}},
